@@ -126,7 +126,6 @@ def invertKey (enc : Array UInt32) (rounds : Nat) : Array UInt32 := Id.run do
 
 end AesImpl
 
-open AesImpl in
 /-- An expanded AES key: `rounds` ∈ {10,12,14}, `enc`/`dec` hold `4·(rounds+1)` words each. -/
 structure AesKey where
   rounds : Nat
@@ -145,53 +144,60 @@ def ofBytes? (k : ByteArray) : Option AesKey :=
     some { rounds := nk + 6, enc := enc, dec := invertKey enc (nk + 6) }
   else none
 
+/-- `n` full rounds (SubBytes, ShiftRows, MixColumns via the `te` tables, AddRoundKey with the
+    words at offset `i`), then the final round without MixColumns.  (Plain recursion with `UInt32`
+    arguments: compiled to a loop over unboxed machine words.) -/
+def encRounds (rk : Array UInt32) : Nat → Nat → UInt32 → UInt32 → UInt32 → UInt32 →
+    UInt32 × UInt32 × UInt32 × UInt32
+  | 0, i, s0, s1, s2, s3 =>
+    let t0 := ((sb (b0 s0) <<< 24) ||| (sb (b1 s1) <<< 16) ||| (sb (b2 s2) <<< 8) ||| sb (b3 s3)) ^^^ rk[i]!
+    let t1 := ((sb (b0 s1) <<< 24) ||| (sb (b1 s2) <<< 16) ||| (sb (b2 s3) <<< 8) ||| sb (b3 s0)) ^^^ rk[i+1]!
+    let t2 := ((sb (b0 s2) <<< 24) ||| (sb (b1 s3) <<< 16) ||| (sb (b2 s0) <<< 8) ||| sb (b3 s1)) ^^^ rk[i+2]!
+    let t3 := ((sb (b0 s3) <<< 24) ||| (sb (b1 s0) <<< 16) ||| (sb (b2 s1) <<< 8) ||| sb (b3 s2)) ^^^ rk[i+3]!
+    (t0, t1, t2, t3)
+  | n+1, i, s0, s1, s2, s3 =>
+    let t0 := te0[b0 s0]! ^^^ te1[b1 s1]! ^^^ te2[b2 s2]! ^^^ te3[b3 s3]! ^^^ rk[i]!
+    let t1 := te0[b0 s1]! ^^^ te1[b1 s2]! ^^^ te2[b2 s3]! ^^^ te3[b3 s0]! ^^^ rk[i+1]!
+    let t2 := te0[b0 s2]! ^^^ te1[b1 s3]! ^^^ te2[b2 s0]! ^^^ te3[b3 s1]! ^^^ rk[i+2]!
+    let t3 := te0[b0 s3]! ^^^ te1[b1 s0]! ^^^ te2[b2 s1]! ^^^ te3[b3 s2]! ^^^ rk[i+3]!
+    encRounds rk n (i+4) t0 t1 t2 t3
+
+/-- inverse rounds of the equivalent inverse cipher (`td` tables), then the final round. -/
+def decRounds (rk : Array UInt32) : Nat → Nat → UInt32 → UInt32 → UInt32 → UInt32 →
+    UInt32 × UInt32 × UInt32 × UInt32
+  | 0, i, s0, s1, s2, s3 =>
+    let t0 := ((isb (b0 s0) <<< 24) ||| (isb (b1 s3) <<< 16) ||| (isb (b2 s2) <<< 8) ||| isb (b3 s1)) ^^^ rk[i]!
+    let t1 := ((isb (b0 s1) <<< 24) ||| (isb (b1 s0) <<< 16) ||| (isb (b2 s3) <<< 8) ||| isb (b3 s2)) ^^^ rk[i+1]!
+    let t2 := ((isb (b0 s2) <<< 24) ||| (isb (b1 s1) <<< 16) ||| (isb (b2 s0) <<< 8) ||| isb (b3 s3)) ^^^ rk[i+2]!
+    let t3 := ((isb (b0 s3) <<< 24) ||| (isb (b1 s2) <<< 16) ||| (isb (b2 s1) <<< 8) ||| isb (b3 s0)) ^^^ rk[i+3]!
+    (t0, t1, t2, t3)
+  | n+1, i, s0, s1, s2, s3 =>
+    let t0 := td0[b0 s0]! ^^^ td1[b1 s3]! ^^^ td2[b2 s2]! ^^^ td3[b3 s1]! ^^^ rk[i]!
+    let t1 := td0[b0 s1]! ^^^ td1[b1 s0]! ^^^ td2[b2 s3]! ^^^ td3[b3 s2]! ^^^ rk[i+1]!
+    let t2 := td0[b0 s2]! ^^^ td1[b1 s1]! ^^^ td2[b2 s0]! ^^^ td3[b3 s3]! ^^^ rk[i+2]!
+    let t3 := td0[b0 s3]! ^^^ td1[b1 s2]! ^^^ td2[b2 s1]! ^^^ td3[b3 s0]! ^^^ rk[i+3]!
+    decRounds rk n (i+4) t0 t1 t2 t3
+
 /-- Cipher (FIPS-197 §5.1) on four big-endian column words. -/
-def encryptWords (k : AesKey) (a0 a1 a2 a3 : UInt32) : UInt32 × UInt32 × UInt32 × UInt32 := Id.run do
+def encryptWords (k : AesKey) (a0 a1 a2 a3 : UInt32) : UInt32 × UInt32 × UInt32 × UInt32 :=
   let rk := k.enc
-  let mut s0 := a0 ^^^ rk[0]!
-  let mut s1 := a1 ^^^ rk[1]!
-  let mut s2 := a2 ^^^ rk[2]!
-  let mut s3 := a3 ^^^ rk[3]!
-  for r in [1:k.rounds] do
-    let t0 := te0[b0 s0]! ^^^ te1[b1 s1]! ^^^ te2[b2 s2]! ^^^ te3[b3 s3]! ^^^ rk[4*r]!
-    let t1 := te0[b0 s1]! ^^^ te1[b1 s2]! ^^^ te2[b2 s3]! ^^^ te3[b3 s0]! ^^^ rk[4*r+1]!
-    let t2 := te0[b0 s2]! ^^^ te1[b1 s3]! ^^^ te2[b2 s0]! ^^^ te3[b3 s1]! ^^^ rk[4*r+2]!
-    let t3 := te0[b0 s3]! ^^^ te1[b1 s0]! ^^^ te2[b2 s1]! ^^^ te3[b3 s2]! ^^^ rk[4*r+3]!
-    s0 := t0; s1 := t1; s2 := t2; s3 := t3
-  let n := 4 * k.rounds
-  let t0 := ((sb (b0 s0) <<< 24) ||| (sb (b1 s1) <<< 16) ||| (sb (b2 s2) <<< 8) ||| sb (b3 s3)) ^^^ rk[n]!
-  let t1 := ((sb (b0 s1) <<< 24) ||| (sb (b1 s2) <<< 16) ||| (sb (b2 s3) <<< 8) ||| sb (b3 s0)) ^^^ rk[n+1]!
-  let t2 := ((sb (b0 s2) <<< 24) ||| (sb (b1 s3) <<< 16) ||| (sb (b2 s0) <<< 8) ||| sb (b3 s1)) ^^^ rk[n+2]!
-  let t3 := ((sb (b0 s3) <<< 24) ||| (sb (b1 s0) <<< 16) ||| (sb (b2 s1) <<< 8) ||| sb (b3 s2)) ^^^ rk[n+3]!
-  return (t0, t1, t2, t3)
+  encRounds rk (k.rounds - 1) 4 (a0 ^^^ rk[0]!) (a1 ^^^ rk[1]!) (a2 ^^^ rk[2]!) (a3 ^^^ rk[3]!)
 
 /-- EqInvCipher (FIPS-197 §5.3.5) on four big-endian column words. -/
-def decryptWords (k : AesKey) (a0 a1 a2 a3 : UInt32) : UInt32 × UInt32 × UInt32 × UInt32 := Id.run do
+def decryptWords (k : AesKey) (a0 a1 a2 a3 : UInt32) : UInt32 × UInt32 × UInt32 × UInt32 :=
   let rk := k.dec
-  let mut s0 := a0 ^^^ rk[0]!
-  let mut s1 := a1 ^^^ rk[1]!
-  let mut s2 := a2 ^^^ rk[2]!
-  let mut s3 := a3 ^^^ rk[3]!
-  for r in [1:k.rounds] do
-    let t0 := td0[b0 s0]! ^^^ td1[b1 s3]! ^^^ td2[b2 s2]! ^^^ td3[b3 s1]! ^^^ rk[4*r]!
-    let t1 := td0[b0 s1]! ^^^ td1[b1 s0]! ^^^ td2[b2 s3]! ^^^ td3[b3 s2]! ^^^ rk[4*r+1]!
-    let t2 := td0[b0 s2]! ^^^ td1[b1 s1]! ^^^ td2[b2 s0]! ^^^ td3[b3 s3]! ^^^ rk[4*r+2]!
-    let t3 := td0[b0 s3]! ^^^ td1[b1 s2]! ^^^ td2[b2 s1]! ^^^ td3[b3 s0]! ^^^ rk[4*r+3]!
-    s0 := t0; s1 := t1; s2 := t2; s3 := t3
-  let n := 4 * k.rounds
-  let t0 := ((isb (b0 s0) <<< 24) ||| (isb (b1 s3) <<< 16) ||| (isb (b2 s2) <<< 8) ||| isb (b3 s1)) ^^^ rk[n]!
-  let t1 := ((isb (b0 s1) <<< 24) ||| (isb (b1 s0) <<< 16) ||| (isb (b2 s3) <<< 8) ||| isb (b3 s2)) ^^^ rk[n+1]!
-  let t2 := ((isb (b0 s2) <<< 24) ||| (isb (b1 s1) <<< 16) ||| (isb (b2 s0) <<< 8) ||| isb (b3 s3)) ^^^ rk[n+2]!
-  let t3 := ((isb (b0 s3) <<< 24) ||| (isb (b1 s2) <<< 16) ||| (isb (b2 s1) <<< 8) ||| isb (b3 s0)) ^^^ rk[n+3]!
-  return (t0, t1, t2, t3)
+  decRounds rk (k.rounds - 1) 4 (a0 ^^^ rk[0]!) (a1 ^^^ rk[1]!) (a2 ^^^ rk[2]!) (a3 ^^^ rk[3]!)
 
 end AesKey
 
 namespace AesImpl
 
+/-- byte `i`, or 0 beyond the end. -/
+@[inline] def gb (b : ByteArray) (i : Nat) : UInt8 := if h : i < b.size then b[i]'h else 0
+
 /-- big-endian 32-bit load at byte offset `i` (bytes beyond the end read as 0). -/
 @[inline] def loadBE32 (b : ByteArray) (i : Nat) : UInt32 :=
-  w32 (b.get! i) (b.get! (i+1)) (b.get! (i+2)) (b.get! (i+3))
+  w32 (gb b i) (gb b (i+1)) (gb b (i+2)) (gb b (i+3))
 
 /-- append the big-endian bytes of `x`. -/
 @[inline] def pushBE32 (o : ByteArray) (x : UInt32) : ByteArray :=
@@ -203,7 +209,7 @@ def fit16 (b : ByteArray) : ByteArray :=
   else Id.run do
     let mut o := ByteArray.emptyWithCapacity 16
     for i in [0:16] do
-      o := o.push (if i < b.size then b.get! i else 0)
+      o := o.push (gb b i)
     return o
 
 end AesImpl
